@@ -591,9 +591,15 @@ func (l *lowerer) payloadLike(fn string, a *Attr, creds []Cred, view string) *dt
 func (l *lowerer) credAttr(c Cred, f *Field) *dt.Node {
 	fn := map[string]string{"username": "Username", "password": "Password", "apikey": "APIKey", "token": "Token", "accesstoken": "AccessToken"}[c.Kind]
 	var n *dt.Node
-	if c.Kind == "apikey" {
+	switch {
+	case f.Tag > 0 && c.Kind == "apikey":
+		// the *Field variants carry the gRPC field number
+		n = dt.N(fn+"Field", dt.I(int64(f.Tag)), dt.S(c.Scheme), dt.S(f.Name))
+	case f.Tag > 0:
+		n = dt.N(fn+"Field", dt.I(int64(f.Tag)), dt.S(f.Name))
+	case c.Kind == "apikey":
 		n = dt.N(fn, dt.S(c.Scheme), dt.S(f.Name))
-	} else {
+	default:
 		n = dt.N(fn, dt.S(f.Name))
 	}
 	if ta, ok := l.typeArg(f.Attr.Type); ok {
